@@ -217,6 +217,9 @@ def run(ctx):
                 for kind_, pat in getters:
                     if match(pat, a_) is not None:
                         return (kind_, equal, b_)
+                # `x.is_some() && x.unwrap() == piece` for the piece on the source
+                if match(call('core::option::Option::<T>::unwrap', call('board::Board::piece_on', ('param', 1), SRC)), a_) is not None:
+                    return ('piece', equal, ('agg', 'core::option::Option', 'Some', (('0', b_),)))
         m = match(call('core::option::Option::<T>::is_some', V('x')), c)
         if m is not None and m['x'] == FOUND:
             return ('found', tv)
